@@ -203,27 +203,7 @@ def falsified(text, flags, rec=None):
                 keys.add("Hyp_no_classical_negation")
         baggs = [n for n in walk(stm) if n.ast_type == ASTType.BodyAggregate]
         minmax = [a for a in baggs if a.function in (AggregateFunction.Min, AggregateFunction.Max)]
-        # D7: a rule with a translated #min/#max aggregate uses a template variable name
-        #     OUTSIDE of the aggregate's elements (head, guards, other body literals): only such a variable can reach the
-        #     rules the hard-wired names are used in (rest_vars / lits_with_vars).  A template name that occurs only inside
-        #     the elements is no instance of D7 (corrections log 20: the broader key hid a seeded capture of `X0`)
-        if "minmax_chains" in on and minmax:
-            outside = set()
-            if stm.ast_type == ASTType.Rule:
-                outside |= set(variables(stm.head))
-            else:
-                outside |= set(variables(stm.weight)) | set(variables(stm.priority)) | set(v for t in stm.terms for v in variables(t))
-            for bl in stm.body:
-                if bl.ast_type == ASTType.Literal and bl.atom.ast_type == ASTType.BodyAggregate and \
-                        bl.atom.function in (AggregateFunction.Min, AggregateFunction.Max):
-                    for g in (bl.atom.left_guard, bl.atom.right_guard):
-                        if g is not None:
-                            outside |= set(variables(g.term))
-                else:
-                    outside |= set(variables(bl))
-            # (the hard-wired X of the #inf/#sup rule was repaired by e4b7945: what is left are the chain rules' names)
-            if any(v in ("__NEXT", "__PREV") for v in outside):
-                keys.add("Hyp_template_vars")
+        # (D7, hard-wired __PREV/__NEXT/X of the min/max chain: repaired in /repo, e4b7945 and c4aa55f; no key any more)
         # D12 / C12a: a negated #min/#max literal
         if "minmax_chains" in on:
             for lit in lits:
